@@ -86,6 +86,16 @@ CLAIMED = {
          "Generated-input search: 250k histories quick / 6M thorough with position-shifting deletes, updates of indexed/key columns, DELETE-all/TRUNCATE, INSERT..SELECT; uses only public APIs (primary_key_index, unique_indexes, get_index_data, rebuild_indexes).",
          "In-memory index backend (the disk-backed backend is C16/C17). A history stops being checked once the engine has accepted a constraint-violating statement (C10's subject).",
          "DESIGN.md §6 C15"),
+ "C17": ("exploration",
+         "model-based (stateful) testing of the disk-backed B+ tree against BTreeMap<Key, Vec<RowId>> with a structural well-formedness walk (verif hook) after every mutating operation",
+         "Generated-input search: 4k operation sequences (1.4M operations) quick / 100k sequences thorough over key schemas forcing degrees 5-8 and 204, starting empty or bulk-loaded, with insert / delete / delete_specific / lookup / multi_lookup / range_scan (all bound combinations) / reopen; answers must equal the map and the tree must stay sorted, depth-uniform and leaf-chained.",
+         "fsync is stubbed out by a pass-through StorageBackend (files still on disk under /verif/target/tmp); well-formedness uses BTreeIndex::verif_walk (cargo feature verif) cross-checked by an independent guard walk.",
+         "DESIGN.md §6 C17"),
+ "C22": ("exploration",
+         "round-trip + totality property testing of DATE/TIME/TIMESTAMP/INTERVAL text parsing (valid component combinations and mutated strings with non-ASCII digits, multibyte fractions, overflowing fields)",
+         "Generated-input search: 40M strings/values quick / 300M thorough; parse(format(v)) == v for every valid value, and parsing any string returns a value or an error without panicking (overflow checks are ON in the harness profile).",
+         "Years 1..=9999; Interval equality is the type's own (months, days, microseconds).",
+         "DESIGN.md §6 C22"),
  "C21": ("exploration",
          "property-based testing (proptest choice tape): algebraic laws over generated SqlValue triples + documented interval model",
          "Generated-input search: millions of SqlValue triples biased to NaN/±0/inf/extreme ints/unit-converted intervals are checked against the Eq/Ord/Hash laws and an independent interval decomposition. Laws over three values are cheap and the taught pools cover every variant pair, so exploration is the right level; it does not show absence.",
@@ -137,6 +147,8 @@ manifest = {
     "engines": [
         {"name": "chk_srv", "path": "harness/chk_srv", "serves_properties": ["C27","C28","C29"],
          "kind_free_text": "Rust binary on the same vcore runner; compiles the server's protocol/auth source files via #[path]"},
+        {"name": "chk_store", "path": "harness/chk_store", "serves_properties": ["C17","C22"],
+         "kind_free_text": "Rust binary on the same vcore runner; B+ tree and temporal-type checks"},
         {"name": "chk_cli", "path": "harness/chk_cli", "serves_properties": ["C31"],
          "kind_free_text": "Rust binary on the same vcore runner; compiles the CLI's commands/data_io/executor source files via #[path]"},
         {"name": "vcheck", "path": "harness/", "serves_properties": sorted(k for k in CLAIMED.keys() if k not in ("C27","C28","C29","C31","C17","C22")),
